@@ -31,13 +31,27 @@ type verifC02Action struct {
 }
 
 type verifC02Case struct {
-	MaxBytes int64            `json:"maxbytes"`
-	Clen     int64            `json:"clen"` // the request really carries that many body bytes
-	Acts     []verifC02Action `json:"acts"`
-	Fire     struct {
+	Kind string `json:"kind"` // e2e | e2em
+	// e2em: several requests through ONE engine chain / route
+	MReqs     []verifC02MReq   `json:"mreqs"`
+	MOps      []verifC02MOp    `json:"mops"`
+	TimeoutMs int64            `json:"timeout_ms"`
+	MaxBytes  int64            `json:"maxbytes"`
+	Clen      int64            `json:"clen"` // the request really carries that many body bytes
+	Acts      []verifC02Action `json:"acts"`
+	Fire      struct {
 		Mode string `json:"mode"` // none | cut (the route's own timer fires while the handler is parked in front of action k)
 		K    int    `json:"k"`
 	} `json:"fire"`
+}
+
+type verifC02MReq struct {
+	Acts []verifC02Action `json:"acts"`
+}
+
+type verifC02MOp struct {
+	Op string `json:"op"` // start | step (one more action of that handler) | fire (wait for that request's route timer)
+	R  int    `json:"r"`
 }
 
 type verifC02Hdr struct {
@@ -221,12 +235,232 @@ func verifC02Run(c *verifC02Case, k int) (obs map[string]any, ok bool) {
 	return map[string]any{"resp": map[string]any{"status": res.status, "h": res.hdr, "body": body}, "trace": tr}, ok
 }
 
+// verifC02RunMulti: several client requests against ONE route of one engine (one TimeoutHandler instance, one
+// MaxConns latch, ...). Handlers are scripted and parked in front of every action; a request is inside
+// once its handler is parked in front of its first action. valid=false: a route timer fired where the schedule
+// did not ask for it (scheduler stall) -- the run is repeated.
+func verifC02RunMulti(c *verifC02Case) (obs map[string]any, valid bool) {
+	type result struct {
+		status int
+		hdr    []verifC02Hdr
+		body   []byte
+		err    error
+	}
+	type reqState struct {
+		acts    []verifC02Action
+		ready   chan int
+		release chan struct{}
+		hexit   chan struct{}
+		resc    chan result
+		mu      sync.Mutex
+		trace   []string
+		live    bool // request context alive at the last park
+		started bool
+		parked  bool
+		fired   bool
+		blocked bool
+		res     *result
+		t0      time.Time
+		took    time.Duration
+	}
+	rs := make([]*reqState, len(c.MReqs))
+	for i, q := range c.MReqs {
+		rs[i] = &reqState{acts: q.Acts, ready: make(chan int), release: make(chan struct{}), hexit: make(chan struct{}),
+			resc: make(chan result, 1), live: true}
+	}
+	h := func(w http.ResponseWriter, r *http.Request) {
+		i, _ := strconv.Atoi(r.Header.Get("X-Verif-Req"))
+		q := rs[i]
+		defer close(q.hexit)
+		park := func(pos int) {
+			q.mu.Lock()
+			q.live = r.Context().Err() == nil
+			q.mu.Unlock()
+			q.ready <- pos
+			<-q.release
+		}
+		for k, a := range q.acts {
+			park(k)
+			q.mu.Lock()
+			q.trace = append(q.trace, "panic")
+			q.mu.Unlock()
+			out := verifC02Do(w, a)
+			q.mu.Lock()
+			q.trace[k] = out
+			q.mu.Unlock()
+		}
+		park(len(q.acts))
+	}
+	ng := newEngine(Config{Timeout: c.TimeoutMs})
+	ng.addRoutes(featuredRoutes{routes: []Route{{Method: http.MethodPost, Path: "/verif", Handler: h}}}) // ONE route, ONE chain
+	rt := router.NewRouter()
+	if err := ng.bindRoutes(rt); err != nil {
+		return map[string]any{"error": err.Error()}, true
+	}
+	srv := httptest.NewServer(rt)
+	defer srv.Close()
+
+	valid = true
+	next := func(q *reqState) {
+		select {
+		case <-q.ready:
+			q.parked = true
+			q.mu.Lock()
+			if !q.live && !q.fired {
+				valid = false
+			}
+			q.mu.Unlock()
+		case <-q.hexit:
+			q.parked = false
+		case <-time.After(verifC02HangLimit):
+			q.parked, q.blocked = false, true
+		}
+	}
+	response := func(q *reqState) {
+		if q.res != nil || q.blocked {
+			return
+		}
+		select {
+		case r := <-q.resc:
+			q.res = &r
+			q.took = time.Since(q.t0)
+		case <-time.After(verifC02HangLimit):
+			q.blocked = true
+		}
+	}
+	maxInside := 0
+	for _, op := range c.MOps {
+		if op.R < 0 || op.R >= len(rs) {
+			continue
+		}
+		i, q := op.R, rs[op.R]
+		if q.blocked {
+			continue
+		}
+		switch op.Op {
+		case "start":
+			if q.started {
+				continue
+			}
+			q.started = true
+			q.t0 = time.Now()
+			go func() {
+				req, _ := http.NewRequest(http.MethodPost, srv.URL+"/verif", bytes.NewReader(nil))
+				req.Header.Set("X-Verif-Req", strconv.Itoa(i))
+				resp, err := http.DefaultClient.Do(req)
+				if err != nil {
+					q.resc <- result{err: err}
+					return
+				}
+				defer resp.Body.Close()
+				b, err := io.ReadAll(resp.Body)
+				q.resc <- result{status: resp.StatusCode, hdr: verifC02Snap(resp.Header), body: b, err: err}
+			}()
+			next(q)
+		case "step":
+			if !q.parked {
+				continue
+			}
+			q.release <- struct{}{}
+			next(q)
+			if !q.parked && !q.blocked {
+				response(q) // handler over: the response follows
+			}
+		case "fire":
+			if !q.started || !q.parked || q.res != nil {
+				continue
+			}
+			q.fired = true
+			response(q) // the route timer answers while the handler stays parked
+		}
+		n := 0
+		for _, x := range rs {
+			if x.parked {
+				n++
+			}
+		}
+		if n > maxInside {
+			maxInside = n
+		}
+	}
+	for _, q := range rs {
+		if !q.started {
+			continue
+		}
+		deadline := time.After(2 * verifC02HangLimit)
+		if q.parked {
+			q.parked = false
+			q.release <- struct{}{}
+		}
+	loop:
+		for {
+			select {
+			case <-q.ready:
+				q.release <- struct{}{}
+			case <-q.hexit:
+				break loop
+			case <-deadline:
+				panic("verif: hung: handler never finished")
+			}
+		}
+		if q.res == nil {
+			select {
+			case r := <-q.resc:
+				q.res = &r
+				q.took = time.Since(q.t0)
+			case <-deadline:
+				panic("verif: hung: no response")
+			}
+		}
+	}
+	out := make([]map[string]any, len(rs))
+	for i, q := range rs {
+		if !q.started {
+			out[i] = map[string]any{"started": false}
+			continue
+		}
+		q.mu.Lock()
+		tr := append([]string{}, q.trace...)
+		q.mu.Unlock()
+		o := map[string]any{"started": true, "trace": tr, "blocked": q.blocked, "fired": q.fired}
+		// an unfired request whose handler never waits for anything but the driver must be answered well
+		// within half the route timeout
+		if !q.fired && c.TimeoutMs > 0 && q.took > time.Duration(c.TimeoutMs)*time.Millisecond/2 {
+			o["blocked"] = true
+		}
+		if q.res.err != nil {
+			o["client_error"] = q.res.err.Error()
+		} else {
+			body := make([]int, len(q.res.body))
+			for k, b := range q.res.body {
+				body[k] = int(b)
+			}
+			o["resp"] = map[string]any{"status": q.res.status, "h": q.res.hdr, "body": body}
+		}
+		out[i] = o
+	}
+	return map[string]any{"reqs": out, "max_inside": maxInside}, valid
+}
+
 func TestVerifDriverC02(t *testing.T) {
 	logx.Disable()
 	verifdrv.Run(t, func(raw json.RawMessage) any {
 		var c verifC02Case
 		if err := json.Unmarshal(raw, &c); err != nil {
 			return map[string]any{"error": err.Error()}
+		}
+		if c.Kind == "e2em" {
+			var obs map[string]any
+			for attempt := 0; attempt < 4; attempt++ {
+				var valid bool
+				obs, valid = verifC02RunMulti(&c)
+				obs["retries"] = attempt
+				if valid {
+					return obs
+				}
+			}
+			obs["gave_up"] = true
+			return obs
 		}
 		for attempt := 0; attempt < 5; attempt++ {
 			obs, ok := verifC02Run(&c, c.Fire.K)
